@@ -233,9 +233,9 @@ var cleanups []func()
 func init() {
 	registerProg(&ProgCheck{
 		ID: "C17", Family: "F-layout", Synth: synthLayout, NoLoad: true,
-		Bound:    map[string]int{"quick": 4, "thorough": 9},
+		Bound:    map[string]int{"quick": 4, "thorough": 6},
 		Deadline: map[string]time.Duration{"quick": 6 * time.Minute, "thorough": 40 * time.Minute},
-		Rule:     "file sets over the directories {., a, ab, abc, ab1, ab2, a/x, ab/x} of a scratch module on disk: 1..3 files (ordered, duplicates allowed), file f.go or g.go, paths relative / absolute / mixed, plus the error cases (missing file, .txt file, package with a type error, file of another module, a directory); every set within the deviation bound of the default (one relative file) is loaded with the real analysis.LoadSources; non-trivial = at least two arguments",
+		Rule:     "file sets over the directories {., a, ab, abc, ab1, ab2, a/x, ab/x} of a scratch module on disk: 1..3 files (ordered, duplicates allowed), file f.go or g.go, paths relative / absolute / mixed, spelled clean / with dir/../dir / with a doubled separator / with ./, plus the error cases (missing file, .txt file, package with a type error, file of another module, a directory, type error in a package that is only imported directly or transitively, path through a file, trailing separator, name too long); every set within the deviation bound of the default (one relative file) is loaded with the real analysis.LoadSources; non-trivial = at least two arguments",
 		Assumptions: []string{
 			"each call runs the real go list (offline, GOFLAGS=-mod=mod); the worker's current directory is the module root",
 		},
